@@ -33,3 +33,25 @@ func VerifAllCmdRegs() []common.VerifReg {
 	sm.registerHandlers()
 	return append(nd.router.VerifRegs(), sm.router.VerifRegs()...)
 }
+
+// VerifApplyErrTexts returns the texts of the fixed errors that the apply handlers of this package
+// return before they call the store (by the name of the Go variable).
+func VerifApplyErrTexts() map[string]string {
+	return map[string]string{
+		"ErrInvalidArgs":        common.ErrInvalidArgs.Error(),
+		"ErrInvalidTTL":         common.ErrInvalidTTL.Error(),
+		"ErrInvalidCommand":     common.ErrInvalidCommand.Error(),
+		"errInvalidRange":       errInvalidRange.Error(),
+		"errScoreNotValidFloat": errScoreNotValidFloat.Error(),
+		"errUnknownData":        errUnknownData.Error(),
+	}
+}
+
+// VerifIsUnrecoveryError calls isUnrecoveryError of the apply loop on an error with the given text.
+func VerifIsUnrecoveryError(text string) bool {
+	return isUnrecoveryError(verifTextErr(text))
+}
+
+type verifTextErr string
+
+func (e verifTextErr) Error() string { return string(e) }
